@@ -131,6 +131,14 @@ func (vc *VC) verify() (obls []*Obligation, err error) {
 			s.assume(env.evalBool(kf.Expr))
 		}
 	}
+	if spec.DeferredHandler {
+		s.ghost["$recovered"] = False
+		s.ghost["$exited"] = False
+		s.ghost["$exitcode"] = IntLit(0)
+		vc.ghostTypes["$recovered"] = types.Typ[types.Bool]
+		vc.ghostTypes["$exited"] = types.Typ[types.Bool]
+		vc.ghostTypes["$exitcode"] = types.Typ[types.Int]
+	}
 	if spec.Propagates {
 		s.ghost["$failed"] = False
 		vc.ghostTypes["$failed"] = types.Typ[types.Bool]
